@@ -16,6 +16,10 @@ type Access struct {
 	Kind   string // "index" | "slice"
 	Proved bool
 	Why    string // which obligation failed
+	// UpperFails: the upper-bound obligation (index < len, high <= len, low <= high) is not established - evaluated also when
+	// the lower-bound obligation already failed, so that a weakened length test shows at a site whose index "may be negative"
+	UpperFails bool
+	UpperWhy   string
 }
 
 func isRangeIndexOf(idx ssa.Value, x ssa.Value) bool { return false }
@@ -58,14 +62,16 @@ func (fb *FB) checkIndex(in ssa.Instruction, idx ssa.Value, ln Lin) Access {
 	// 0 <= i
 	if !fb.ProveGE0At(i, in) {
 		a.Why = "index may be negative"
-		return a
 	}
 	// i <= len-1
 	if !fb.ProveGE0At(ln.add(i, -1).add(linConst(1), -1), in) {
-		a.Why = fmt.Sprintf("no dominating guard implies index < len (index=%s, len=%s)", fb.linString(i), fb.linString(ln))
-		return a
+		a.UpperFails = true
+		a.UpperWhy = fmt.Sprintf("no dominating guard implies index < len (index=%s, len=%s)", fb.linString(i), fb.linString(ln))
+		if a.Why == "" {
+			a.Why = a.UpperWhy
+		}
 	}
-	a.Proved = true
+	a.Proved = a.Why == ""
 	return a
 }
 
@@ -76,7 +82,15 @@ func (fb *FB) checkSlice(s *ssa.Slice) Access {
 		lo = fb.lin(s.Low)
 		if !fb.ProveGE0At(lo, s) {
 			a.Why = "low bound may be negative"
-			return a
+		}
+	}
+	upper := func(why string) {
+		a.UpperFails = true
+		if a.UpperWhy == "" {
+			a.UpperWhy = why
+		}
+		if a.Why == "" {
+			a.Why = why
 		}
 	}
 	limit := fb.capOfOperand(s.X)
@@ -90,21 +104,18 @@ func (fb *FB) checkSlice(s *ssa.Slice) Access {
 		if !fb.ProveGE0At(limit.add(hi, -1), s) {
 			// try len as limit explicitly
 			if !fb.ProveGE0At(fb.lenOfOperand(s.X).add(hi, -1), s) {
-				a.Why = fmt.Sprintf("no dominating guard implies high <= len (high=%s, len=%s)", fb.linString(hi), fb.linString(fb.lenOfOperand(s.X)))
-				return a
+				upper(fmt.Sprintf("no dominating guard implies high <= len (high=%s, len=%s)", fb.linString(hi), fb.linString(fb.lenOfOperand(s.X))))
 			}
 		}
-		if s.Low != nil && !fb.ProveGE0At(hi.add(lo, -1), s) {
-			a.Why = fmt.Sprintf("low <= high not implied (low=%s, high=%s)", fb.linString(lo), fb.linString(hi))
-			return a
+		if s.Low != nil && !a.UpperFails && !fb.ProveGE0At(hi.add(lo, -1), s) {
+			upper(fmt.Sprintf("low <= high not implied (low=%s, high=%s)", fb.linString(lo), fb.linString(hi)))
 		}
 	} else if s.Low != nil {
 		if !fb.ProveGE0At(fb.lenOfOperand(s.X).add(lo, -1), s) {
-			a.Why = fmt.Sprintf("no dominating guard implies low <= len (low=%s, len=%s)", fb.linString(lo), fb.linString(fb.lenOfOperand(s.X)))
-			return a
+			upper(fmt.Sprintf("no dominating guard implies low <= len (low=%s, len=%s)", fb.linString(lo), fb.linString(fb.lenOfOperand(s.X))))
 		}
 	}
-	a.Proved = true
+	a.Proved = a.Why == ""
 	return a
 }
 
